@@ -10,6 +10,7 @@ are compared directly.
 import csv
 import itertools
 import os
+import re
 import shutil
 import tempfile
 import warnings
@@ -204,7 +205,7 @@ def csv_case(acc, di, atts, hname, mode, pre, writer):
             acc.violation('csv_col_count', f"C19:csv_col_count:{ck}", case, got=r, exp=ncols)
             return
         for a, c in zip(atts, r):
-            v = getattr(t, a, f"{a}: n/a")
+            v = ref_value(t, a)
             if not cell_ok(v, c):
                 acc.violation('csv_cell', f"C19:csv_cell:{writer.split('_')[0]}:{a}", case, got=c, exp=repr(v),
                               note=f"attribute {a}")
@@ -225,13 +226,24 @@ def csv_case(acc, di, atts, hname, mode, pre, writer):
         acc.guard('multiline_cell')
 
 
+def ref_value(t, a):
+    """Reference value of attribute `a` of tract `t`: documented attributes (Tract.ATTRIBUTES) are read with a plain getattr -
+    a documented attribute that cannot be read is a violation, not a placeholder - and `ilots` is recomputed from `.lots`;
+    only names outside Tract.ATTRIBUTES give the documented 'n/a' placeholder."""
+    if a not in _p.Tract.ATTRIBUTES:
+        return getattr(t, a, f"{a}: n/a")
+    if a == 'ilots':
+        return [int(re.search(r'L(\d+)$', lot).group(1)) for lot in t.lots]
+    return getattr(t, a)
+
+
 def records_case(acc, di, atts):
     d = DESCS[di]
     atts = list(atts)
     ck = f"{di}|{','.join(atts)}|records"
     case = {'op': 'records', 'desc': di, 'atts': atts}
     tracts = list(d.tracts)
-    want_l = [[getattr(t, a, f"{a}: n/a") for a in atts] for t in tracts]
+    want_l = [[ref_value(t, a) for a in atts] for t in tracts]
     want_d = [dict(zip(atts, row)) for row in want_l]
     try:
         forms = {
